@@ -64,11 +64,12 @@ def ops_for(root, tier):
         ops.append(("set_link", "offset", o, 2))
     for meth in ("set_bookmark", "set_reference_mark", "insert_annotation"):
         for r in REGEXES[:6] + ["zz"]:
-            for pos in (0, 1, -1):
+            for pos in (0, 1, 2, 3, -1):
                 ops.append((meth, "before", r, pos))
-            for pos in (0, -1):
+            for pos in (0, 2, -1):
                 ops.append((meth, "after", r, pos))
             ops.append((meth, "content", r, 0))
+            ops.append((meth, "content", r, 2))
             if tier != "quick":
                 ops.append((meth, "content", r, 1))
         for p in offs:
